@@ -20,6 +20,11 @@ def _floors(per_alt, explicit, noactive, disabled, ctxchg, mt, scale=1):
               "direct_passed_as_const_lvalue": 3000 * scale, "direct_passed_as_lvalue": 80 * scale,
               "direct_passed_as_rvalue": 500 * scale, "direct_containers_with_several_elements": 2500 * scale,
               "direct_owning_string_values_at_synchronous_exporter": 3000 * scale})
+    # records that waited between CreateLogRecord and emit while LoggerProvider::AddProcessor ran (C13-w4-2)
+    f.update({"processors_added_while_a_record_was_pending": 250 * scale,
+              "emits_of_records_created_before_a_processor_was_added": 200 * scale,
+              "emits_of_records_created_under_one_processor_emitted_under_several": 120 * scale,
+              "emits_of_records_created_under_no_processor_emitted_under_some": 15 * scale})
     for field in ("body", "attr"):
         for a in ALTS:
             for k in ("simple", "batch", "multi"):
@@ -76,7 +81,14 @@ SPEC = {
              "integer extremes, +-0, denormals, infinities). After the emitting call returns every caller buffer is "
              "scribbled (kill=free: emitted a second time with the same arguments and freed), batch processors are flushed "
              "and each exporter must have received exactly one record equal to the model. Mode mt = 1..4 threads running such "
-             "programs concurrently on shared processors, matched by an id attribute. A case is non-trivial if at least one "
+             "programs concurrently on shared processors, matched by an id attribute. In about a third of the sequential cases one "
+             "or two further processors (simple / batch / nested) are handed to the existing provider with "
+             "LoggerProvider::AddProcessor at a seeded point while a record made by CreateLogRecord on an enabled logger "
+             "waits to be emitted (a provider with one processor grows to two), and 1 case in 24 builds the provider "
+             "without processors and attaches all of them that way: every exporter configured when the record was created "
+             "must receive it exactly once and equal to the model, exporters added between creation and emit are not "
+             "judged for that record (counted) and are judged for every record created afterwards; these decisions come "
+             "from a stream of their own, so the programs are the same as without them. A case is non-trivial if at least one "
              "emit was verified; distinct = hash of configuration + operation/shape/alternative/key sequence."),
     "assumptions": ASSUME_COMMON + [
         "const char* and string_view bodies/attributes are one value class (string): the statement is about the value, not the variant index",
@@ -85,5 +97,6 @@ SPEC = {
         "an EventId constructed from a name with an embedded NUL is its C-string prefix (logs::EventId stores a NUL-terminated char array): full name or prefix accepted, counted as don't-care; SetEventId(id, view) must keep every byte (--param strict_eventid_nul=1 demands it for EventId too)",
         "explicit identity wins field by field: an explicit TraceId alone leaves span id and flags to the active span",
         "in the threaded run value buffers stay alive until the case was verified (ownership is decided by the sequential runs)",
+        "a record created before LoggerProvider::AddProcessor and emitted after it: 'every configured processor' is read as every processor configured when the record was created (the SDK prepares one recordable per processor at CreateLogRecord); whether the processor added in between receives that record is don't-care, counted",
         "elements of a directly passed owning container: a simple processor's exporter must see exactly what the container held when the call was made; with a batch processor the record's non-owning views refer to the caller's container, which is the known value-owned finding (same key pattern as every other pointer-carrying value)"],
 }
